@@ -12,7 +12,7 @@ EXTENDS Integers, Sequences, FiniteSets, TLC
 \* attribute -> default kind and declared default contents
 \* scalars are ints; lists sequences; dict / set as sorted sequences; "t_cont": <<list, int>>
 Attrs == {"c_int", "l_plain", "l_init", "d_plain", "s_plain", "a_list", "a_dict", "f_call", "m_dyn", "m_list", "t_cont",
-          "u_cont", "o_int", "n_int"}
+          "u_cont", "o_int", "n_int", "mp", "arr", "pf"}
 Default(a, sub) ==     \* sub: the instance belongs to the subclass overriding c_int (o_int) and the dynamic default
   CASE a = "c_int"   -> 3
     [] a = "o_int"   -> IF sub THEN 5 ELSE 4                  \* constant default overridden in the subclass
@@ -28,8 +28,14 @@ Default(a, sub) ==     \* sub: the instance belongs to the subclass overriding c
     [] a = "m_list"  -> <<6>>                                 \* _m_list_default method returning a new list
     [] a = "t_cont"  -> <<<<>>, 0>>                           \* Tuple(List(Int), Int): container member -> fresh per instance
     [] a = "u_cont"  -> <<>>                                  \* Union(List(Int), None)
-Dynamic == {"m_dyn", "m_list"}                                \* defaults computed by a method (counted)
-Mutable == {"l_plain", "l_init", "d_plain", "s_plain", "a_list", "a_dict", "f_call", "m_list", "t_cont", "u_cont"}
+    [] a = "mp"      -> 1                                     \* Map({"a": 1, "b": 2}): keys coded 1, 2; reading stores the shadow mp_ too
+    [] a = "arr"     -> <<>>                                  \* Array(): a zero-size array, copied per instance
+    [] a = "pf"      -> 11                                    \* _pf_default method; the trait's post_setattr hook raises the first time
+Dynamic == {"m_dyn", "m_list", "pf"}                          \* defaults computed by a method (counted)
+Mutable == {"l_plain", "l_init", "d_plain", "s_plain", "a_list", "a_dict", "f_call", "m_list", "t_cont", "u_cont", "arr"}
+Handled == {"c_int", "o_int", "m_dyn", "n_int"}               \* the attributes "register" puts handlers on
+FaultOnFirstRead == {"pf"}
+FaultRet == -1                                                \* what a read that raised the hook's exception "returns"
 \* the in-place mutation used to probe sharing: append 9 / d[9] = 9 / add 9 (on the list member for t_cont)
 Mutated(a, v) == CASE a \in {"d_plain", "a_dict"} -> IF \E k \in 1..Len(v) : v[k][1] = 9 THEN v ELSE Append(v, <<9, 9>>)
                    [] a = "s_plain" -> IF \E k \in 1..Len(v) : v[k] = 9 THEN v ELSE Append(v, 9)
@@ -38,7 +44,7 @@ Mutated(a, v) == CASE a \in {"d_plain", "a_dict"} -> IF \E k \in 1..Len(v) : v[k
 
 \* a value slot: [set |-> 0 (never materialised) | 1, v |-> contents]; TLC cannot compare values of different shapes,
 \* so an unset slot carries a neutral value of the attribute's own shape
-Scalars == {"c_int", "o_int", "m_dyn", "n_int"}
+Scalars == {"c_int", "o_int", "m_dyn", "n_int", "mp", "pf"}
 Zero(a) == IF a \in Scalars THEN 0 ELSE IF a = "t_cont" THEN <<<<>>, 0>> ELSE <<>>
 Unset(a) == [set |-> 0, v |-> Zero(a)]
 Val(a, v) == [set |-> 1, v |-> v]
@@ -50,19 +56,22 @@ Materialise(st, a, sub) ==
   ELSE [st EXCEPT !.vals[a] = Val(a, Default(a, sub)), !.runs = IF a \in Dynamic THEN [@ EXCEPT ![a] = @ + 1] ELSE @]
 
 \* operations of an actor instance; result [st, ret]
-Read(st, a, sub)   == LET s2 == Materialise(st, a, sub) IN [st |-> s2, ret |-> s2.vals[a].v]         \* silent: calls unchanged
+\* a fault AFTER the default was computed and stored (the trait's post_setattr hook raising during the first read) does
+\* not undo it: the default method has run once, the value is stored, later reads return it
+Read(st, a, sub)   == LET s2 == Materialise(st, a, sub) IN
+                      [st |-> s2, ret |-> IF a \in FaultOnFirstRead /\ st.vals[a].set = 0 /\ st.runs[a] = 0 THEN FaultRet ELSE s2.vals[a].v]         \* silent: calls unchanged
 Mutate(st, a, sub) == LET s2 == Materialise(st, a, sub) IN
                       [st |-> [s2 EXCEPT !.vals[a] = Val(a, Mutated(a, @.v))], ret |-> "ok"]
 \* assignment of a scalar attribute (c_int, o_int, m_dyn): handlers registered on the actor are called once per change
 Assign(st, a, v, sub) == LET old == IF st.vals[a].set = 0 THEN Default(a, sub) ELSE st.vals[a].v
-                             s1 == IF a \in Dynamic /\ st.regs > 0 THEN Materialise(st, a, sub) ELSE st
-                         IN [st |-> [s1 EXCEPT !.vals[a] = Val(a, v), !.calls = @ + (IF old # v \/ a = "n_int" THEN st.regs ELSE 0)], ret |-> "ok"]
+                             s1 == IF a \in Dynamic /\ a \in Handled /\ st.regs > 0 THEN Materialise(st, a, sub) ELSE st
+                         IN [st |-> [s1 EXCEPT !.vals[a] = Val(a, v), !.calls = @ + (IF a \in Handled /\ (old # v \/ a = "n_int") THEN st.regs ELSE 0)], ret |-> "ok"]
 \* del obj.a: back to the default.  With handlers registered on the attribute the default is re-materialised at once
 \* (a dynamic default method runs again: "once per instance and attribute BETWEEN deletions") and reported like an
 \* assignment of the default
 Delete(st, a, sub) ==
   IF st.vals[a].set = 0 THEN [st |-> st, ret |-> "ok"]
-  ELSE IF a \in Scalars /\ st.regs > 0
+  ELSE IF a \in Handled /\ st.regs > 0
        THEN LET s1 == Materialise([st EXCEPT !.vals[a] = Unset(a)], a, sub) IN
             [st |-> [s1 EXCEPT !.calls = @ + (IF st.vals[a].v # Default(a, sub) \/ a = "n_int" THEN st.regs ELSE 0)], ret |-> "ok"]
        ELSE [st |-> [st EXCEPT !.vals[a] = Unset(a)], ret |-> "ok"]
@@ -74,4 +83,5 @@ Apply(op, st, a, v, sub) ==
   CASE op = "read" -> Read(st, a, sub) [] op = "mutate" -> Mutate(st, a, sub) [] op = "assign" -> Assign(st, a, v, sub)
     [] op = "delete" -> Delete(st, a, sub) [] op = "register" -> Register(st) [] op = "add_trait" -> AddTrait(st)
     [] op = "mutate_extra" -> MutateExtra(st)
+    [] op = "query" -> [st |-> st, ret |-> "ok"]        \* trait_names() / traits() / class_trait_names() / ...: pure
 =============================================================================
